@@ -58,6 +58,17 @@ def init_attr_order(ctx, cls):
     return init, snap, setattr_, before, after
 
 
+def payload_elts(ctx, comp, call):
+    """components of the payload handed to serialize(): the tuple literal, or the tuple a local was bound to once"""
+    a0 = call.args[0] if call.args else None
+    if isinstance(a0, ast.Name):
+        v = U.single_assign_value(comp, a0.id)
+        if isinstance(v, ast.Tuple):
+            a0 = v
+    ctx.require(isinstance(a0, ast.Tuple), 'serialize() is not called with a tuple literal payload')
+    return a0.elts
+
+
 @rule('R-payload-complete', 'the snapshot payload carries object state, last applied entry, its predecessor, the member set '
                             'and the enabled code version in every serializer mode, and the loader reads each component '
                             'from the position the writer put it')
@@ -65,8 +76,7 @@ def r_payload_complete(ctx):
     P, R = ctx.P, ctx.R
     comp, call = compaction_func(ctx)
     idx_pos, term_pos = journal_positions(P)
-    ctx.require(call.args and isinstance(call.args[0], ast.Tuple), 'serialize() is not called with a tuple literal payload')
-    elts = call.args[0].elts
+    elts = payload_elts(ctx, comp, call)
     ex = U.explorer(ctx, comp)
     res = U.full_run(ctx, comp)
     cn = U.node_containing(ex.cfg, call)
@@ -197,7 +207,7 @@ def r_payload_complete(ctx):
 def r_version_in_payload(ctx):
     P, R = ctx.P, ctx.R
     comp, call = compaction_func(ctx)
-    elts = call.args[0].elts
+    elts = payload_elts(ctx, comp, call)
     roles = {}
     for i, e in enumerate(elts):
         if isinstance(e, ast.Name):
@@ -278,7 +288,7 @@ def r_snapshot_point(ctx):
     ex = U.explorer(ctx, comp)
     cfg = ex.cfg
     cn = U.node_containing(cfg, call)
-    elts = call.args[0].elts
+    elts = payload_elts(ctx, comp, call)
     entries_var = [e.value.id for e in elts if isinstance(e, ast.Subscript) and isinstance(e.value, ast.Name)][0]
     fetch = [d for d in U.walk_no_nested(comp.node) if isinstance(d, ast.Assign) and any(isinstance(t, ast.Name) and t.id == entries_var for t in d.targets)]
     ctx.require(fetch, 'position read not found')
@@ -677,6 +687,27 @@ def r_transfer_restart(ctx):
         ctx.violation('%s:transfer-not-cancelled-on-disconnect' % f.qualname, f.loc(),
                       'neither the send loop (it no longer visits disconnected nodes to cancel their transfer) nor every disconnect path (%s lacks it) cancels a snapshot '
                       'transfer: after a reconnect the leader resumes mid-stream and the follower installs a dump with a hole' % ', '.join(missing), instance=inst)
+    # the transfer is cancelled under the key it was started with: the same kind of expression is handed to the start / continue
+    # method and to the cancel method (`node` and `node.id` name different table entries)
+    starts = []
+    for g_ in P.methods_of(R.S):
+        for c in P.calls_in(g_):
+            if isinstance(c.func, ast.Attribute) and c.func.attr == gtd.name and P.self_attr(c.func.value, g_.self_name) == R.serializer and c.args:
+                starts.append((g_, c))
+    key_shapes = set()
+    for g_, c in starts:
+        key_shapes.add('attr:' + c.args[0].attr if isinstance(c.args[0], ast.Attribute) else 'plain')
+    inst = 'a transfer is cancelled under the key it was started with'
+    for g_ in P.methods_of(R.S):
+        for c in cancels(g_):
+            ctx.tick()
+            shape = 'attr:' + c.args[0].attr if c.args and isinstance(c.args[0], ast.Attribute) else 'plain'
+            if key_shapes and shape not in key_shapes:
+                ctx.violation('%s:transfer-cancelled-under-another-key' % g_.qualname, g_.loc(c),
+                              '`%s` names the transfer by `%s`, but transfers are started with %s: the cancel never matches, after a reconnect the half-read transfer is resumed '
+                              'and the follower assembles a dump with a hole' % (unparse(c), unparse(c.args[0]), ' / '.join('`%s`' % unparse(c2.args[0]) for g2, c2 in starts)), instance=inst)
+            else:
+                ctx.ok(inst, g_.loc(c), unparse(c))
     ctx.expect_min(1)
 
 
@@ -716,6 +747,27 @@ def r_transfer_flags(ctx):
         ctx.ok(inst, g.loc(adv[0].ast), '%s += len(%s)' % (key, data_v))
     else:
         ctx.violation('Serializer.getTransmissionData:offset-advance', g.loc(adv[0].ast), 'the transfer offset is advanced by `%s`, not by the length of the chunk just read' % sz, instance=inst)
+    # an in-memory snapshot is cut at [offset : offset + batch]: the slice that produces the chunk starts at the transfer offset and
+    # ends a positive amount after that same offset
+    res_g = U.full_run(ctx, g)
+    for n in cfg.nodes:
+        if n.kind != 'stmt' or not isinstance(n.ast, ast.Assign) or unparse(n.ast.targets[0]) != data_v:
+            continue
+        v = n.ast.value
+        if not (isinstance(v, ast.Subscript) and isinstance(v.slice, ast.Slice)):
+            continue
+        inst = 'chunk slice is [offset : offset + batch size]'
+        ctx.tick()
+        lo, up = v.slice.lower, v.slice.upper
+        keyt = ex.tb.term(U.parse_expr(key))
+        lo_ok = lo is not None and bool(res_g.facts_at(n.id)) and all(oracle.entails(fs, ('eq', ex.tb.term(lo), keyt)) for fs in res_g.facts_at(n.id))
+        up_ok = isinstance(up, ast.BinOp) and isinstance(up.op, ast.Add) and lo is not None and unparse(lo) in (unparse(up.left), unparse(up.right))
+        if lo_ok and up_ok:
+            ctx.ok(inst, g.loc(n.ast), unparse(v))
+        else:
+            ctx.violation('Serializer.getTransmissionData:chunk-slice', g.loc(n.ast),
+                          '`%s` is not the slice from the transfer offset `%s` to that offset plus the batch size: from the second chunk on the slice is empty or overlaps, '
+                          'the receiver takes the empty chunk for the end of the dump (a follower behind the compaction point never catches up)' % (unparse(v), key), instance=inst)
     # last flag and forgetting the transfer
     lasts = [n for n in cfg.nodes if n.kind == 'stmt' and isinstance(n.ast, ast.Assign) and unparse(n.ast.targets[0]) == last_v]
     inst = 'last-chunk flag = empty read; the transfer is forgotten after it'
